@@ -50,7 +50,8 @@ impl futures_core::Stream for Ready {
 
 fn drive_adaptor(pb: &ProgressBar, kind: u8, n: u8, k: u8) {
     use futures_core::Stream;
-    let pb = pb.clone().with_finish(crate::multi::finish_of(k));
+    // (k == 5: the bar keeps the finish behaviour it was created with)
+    let pb = if k % 6 == 5 { pb.clone() } else { pb.clone().with_finish(crate::multi::finish_of(k)) };
     match kind % 6 {
         4 => {
             use indicatif::ParallelProgressIterator;
@@ -129,16 +130,32 @@ fn run_hidden(c: &HiddenCase) -> CaseResult {
     let file_probe = file.try_clone().map_err(|e| Fail::new("harness", e.to_string()))?;
     let mut keep_mp: Option<MultiProgress> = None;
     let mut keep_old: Option<MultiProgress> = None;
-    let hid = match c.way % 6 {
+    let mut keep_first: Option<ProgressBar> = None;
+    let hid = match c.way % 7 {
         0 => ProgressBar::with_draw_target(c.len, ProgressDrawTarget::hidden()),
         1 => {
             let term = console::Term::read_write_pair(file.try_clone().unwrap(), file);
             ProgressBar::with_draw_target(c.len, ProgressDrawTarget::term(term, 20))
         }
         2 => {
+            // the second of three members of a hidden MultiProgress; the third is dropped right away
             let mp = MultiProgress::with_draw_target(ProgressDrawTarget::hidden());
+            keep_first = Some(mp.add(ProgressBar::new(3)));
             let pb = mp.add(ProgressBar::with_draw_target(c.len, ProgressDrawTarget::hidden()));
+            drop(mp.add(ProgressBar::new(4)));
             keep_mp = Some(mp);
+            pb
+        }
+        6 => {
+            // the constructor for a hidden bar; it has no length, so both twins are given theirs afterwards
+            let pb = ProgressBar::hidden();
+            if let Some(l) = c.len {
+                pb.set_length(l);
+                vis.set_length(l);
+            } else {
+                pb.unset_length();
+                vis.unset_length();
+            }
             pb
         }
         5 => {
@@ -171,17 +188,17 @@ fn run_hidden(c: &HiddenCase) -> CaseResult {
         }
     };
     hid.set_style(style());
-    ensure!(c.way % 6 == 3 || hid.is_hidden(), "not_hidden", "is_hidden() is false for hidden way {}", c.way % 6);
+    ensure!(c.way % 7 == 3 || hid.is_hidden(), "not_hidden", "is_hidden() is false for hidden way {}", c.way % 7);
     let mut v = Verdict::default();
     let all: Vec<(bool, &BOp)> = c.pre.iter().map(|o| (true, o)).chain(c.ops.iter().map(|o| (false, o))).collect();
-    let mut removed = c.way % 6 != 3;
-    if c.burn && c.way % 6 != 3 {
+    let mut removed = c.way % 7 != 3;
+    if c.burn && c.way % 7 != 3 {
         let calls0 = spy.ncalls();
         for _ in 0..25 {
             vis.tick();
-            catch(|| hid.tick()).map_err(|p| Fail::new("panic", format!("hidden bar (way {}): tick panicked: {p}", c.way % 6)))?;
+            catch(|| hid.tick()).map_err(|p| Fail::new("panic", format!("hidden bar (way {}): tick panicked: {p}", c.way % 7)))?;
         }
-        ensure!(spy.ncalls() == calls0, "not_silent", "hidden way {}: 25 ticks made {} terminal call(s)", c.way % 6, spy.ncalls() - calls0);
+        ensure!(spy.ncalls() == calls0, "not_silent", "hidden way {}: 25 ticks made {} terminal call(s)", c.way % 7, spy.ncalls() - calls0);
         v.label("limiter_burst_used_up_first");
     }
     let mut state_change = false;
@@ -193,19 +210,19 @@ fn run_hidden(c: &HiddenCase) -> CaseResult {
             }
             removed = true;
         }
-        if *is_pre && c.way % 6 != 3 {
+        if *is_pre && c.way % 7 != 3 {
             continue;
         }
         clock::advance(Duration::from_millis(3));
         let calls_before = spy.ncalls();
         catch(|| exec_quiet(&vis, op)).map_err(|p| Fail::new("panic", format!("visible twin: op #{i} {op:?} panicked: {p}")))?;
-        catch(|| exec_quiet(&hid, op)).map_err(|p| Fail::new("panic", format!("hidden bar (way {}): op #{i} {op:?} panicked: {p}", c.way % 6)))?;
+        catch(|| exec_quiet(&hid, op)).map_err(|p| Fail::new("panic", format!("hidden bar (way {}): op #{i} {op:?} panicked: {p}", c.way % 7)))?;
         if removed {
             let n = spy.ncalls() - calls_before;
-            ensure!(n == 0, "not_silent", "hidden way {}: op #{i} {op:?} on the bar made {n} terminal call(s) (ops {:?} after pre {:?})", c.way % 6, &c.ops, &c.pre);
+            ensure!(n == 0, "not_silent", "hidden way {}: op #{i} {op:?} on the bar made {n} terminal call(s) (ops {:?} after pre {:?})", c.way % 7, &c.ops, &c.pre);
         }
         let (a, b) = (snap(&vis), snap(&hid));
-        ensure!(a == b, "state_diverged", "hidden way {}: after op #{i} {op:?}: (position, length, message, prefix, finished, elapsed, eta, per_sec bits) = {b:?}, the visible twin has {a:?}", c.way % 6);
+        ensure!(a == b, "state_diverged", "hidden way {}: after op #{i} {op:?}: (position, length, message, prefix, finished, elapsed, eta, per_sec bits) = {b:?}, the visible twin has {a:?}", c.way % 7);
         state_change |= matches!(op, BOp::Inc(_) | BOp::SetPos(_) | BOp::SetMessage(_) | BOp::SetLength(_) | BOp::Reset);
         forced |= matches!(op, BOp::Println(_) | BOp::Suspend(_) | BOp::SetTabWidth(_) | BOp::Finish | BOp::FinishWithMessage(_) | BOp::FinishAndClear | BOp::Abandon | BOp::AbandonWithMessage(_));
     }
@@ -218,12 +235,12 @@ fn run_hidden(c: &HiddenCase) -> CaseResult {
         clock::advance(Duration::from_millis(3));
         let calls_before = spy.ncalls();
         catch(|| drive_adaptor(&vis, kind, n, k)).map_err(|p| Fail::new("panic", format!("visible twin: adaptor {kind} panicked: {p}")))?;
-        catch(|| drive_adaptor(&hid, kind, n, k)).map_err(|p| Fail::new("panic", format!("hidden bar (way {}): adaptor {kind} panicked: {p}", c.way % 6)))?;
+        catch(|| drive_adaptor(&hid, kind, n, k)).map_err(|p| Fail::new("panic", format!("hidden bar (way {}): adaptor {kind} panicked: {p}", c.way % 7)))?;
         let n_calls = spy.ncalls() - calls_before;
         let what = ["wrap_iter", "wrap_iter(..).rev()", "wrap_stream", "wrap_read", "rayon progress_with(..).map().sum()", "rayon progress_with(..).enumerate().collect()"][(kind % 6) as usize];
-        ensure!(n_calls == 0, "not_silent", "hidden way {}: driving {what} over {n} items made {n_calls} terminal call(s)", c.way % 6);
+        ensure!(n_calls == 0, "not_silent", "hidden way {}: driving {what} over {n} items made {n_calls} terminal call(s)", c.way % 7);
         let (a, b) = (snap(&vis), snap(&hid));
-        ensure!(a == b, "state_diverged", "hidden way {}: after {what} over {n} items with finish behaviour {k} ended (ops {:?}): (position, length, message, prefix, finished, elapsed, eta, per_sec bits) = {b:?}, the visible twin has {a:?}", c.way % 6, c.ops);
+        ensure!(a == b, "state_diverged", "hidden way {}: after {what} over {n} items with finish behaviour {k} ended (ops {:?}): (position, length, message, prefix, finished, elapsed, eta, per_sec bits) = {b:?}, the visible twin has {a:?}", c.way % 7, c.ops);
         v.label("adaptor_driven_to_its_end");
     }
     for (j, (kind, x)) in c.big.iter().enumerate() {
@@ -245,26 +262,41 @@ fn run_hidden(c: &HiddenCase) -> CaseResult {
         };
         let what = ["inc_length", "dec_length", "set_length", "inc", "dec", "set_position"][(kind % 6) as usize];
         catch(|| call(&vis)).map_err(|p| Fail::new("panic", format!("visible twin: {what}({x}) panicked: {p}")))?;
-        catch(|| call(&hid)).map_err(|p| Fail::new("panic", format!("hidden bar (way {}): call #{j} {what}({x}) panicked: {p} (calls {:?})", c.way % 6, c.big)))?;
-        ensure!(spy.ncalls() == calls_before, "not_silent", "hidden way {}: {what}({x}) made {} terminal call(s)", c.way % 6, spy.ncalls() - calls_before);
+        catch(|| call(&hid)).map_err(|p| Fail::new("panic", format!("hidden bar (way {}): call #{j} {what}({x}) panicked: {p} (calls {:?})", c.way % 7, c.big)))?;
+        ensure!(spy.ncalls() == calls_before, "not_silent", "hidden way {}: {what}({x}) made {} terminal call(s)", c.way % 7, spy.ncalls() - calls_before);
         let (a, b) = (snap(&vis), snap(&hid));
-        ensure!(a == b, "state_diverged", "hidden way {}: after call #{j} {what}({x}) of {:?}: (position, length, message, prefix, finished, elapsed, eta, per_sec bits) = {b:?}, the visible twin has {a:?}", c.way % 6, c.big);
+        ensure!(a == b, "state_diverged", "hidden way {}: after call #{j} {what}({x}) of {:?}: (position, length, message, prefix, finished, elapsed, eta, per_sec bits) = {b:?}, the visible twin has {a:?}", c.way % 7, c.big);
         v.label("arguments_over_the_whole_u64_range");
     }
+    if c.way % 7 == 2 {
+        // the hidden MultiProgress keeps working as a container: another member, then the first one goes
+        let mp = keep_mp.clone().expect("hidden multi");
+        catch(|| {
+            let late = mp.add(ProgressBar::new(2));
+            late.inc(1);
+            drop(keep_first.take());
+            late.finish();
+            mp.remove(&late);
+        })
+        .map_err(|p| Fail::new("panic", format!("hidden MultiProgress: add / drop of the first member / remove after a later member was dropped panicked: {p}")))?;
+        let (a, b) = (snap(&vis), snap(&hid));
+        ensure!(a == b, "state_diverged", "hidden way 2: after slots of the hidden MultiProgress were freed and reused: {b:?}, the visible twin has {a:?}");
+    }
+    drop(keep_first);
     drop(hid);
     drop(keep_mp);
     drop(keep_old);
-    if c.way % 6 == 1 {
+    if c.way % 7 == 1 {
         let len = file_probe.metadata().map(|m| m.len()).unwrap_or(0);
         ensure!(len == 0, "not_silent", "Term that is not a tty: {len} bytes were written to it (ops {:?})", c.ops);
     }
-    if c.way % 6 == 3 && removed {
+    if c.way % 7 == 3 && removed {
         // dropping a removed bar is silent too (checked through the spy's counter during ops; the drop itself:)
     }
     v.nontrivial = state_change && forced;
-    v.label(["way_hidden_target", "way_not_a_tty", "way_hidden_multi", "way_removed_from_multi", "way_moved_from_visible_to_hidden_multi", "way_removed_from_hidden_multi_that_becomes_visible"][(c.way % 6) as usize]);
+    v.label(["way_hidden_target", "way_not_a_tty", "way_hidden_multi", "way_removed_from_multi", "way_moved_from_visible_to_hidden_multi", "way_removed_from_hidden_multi_that_becomes_visible", "way_hidden_constructor"][(c.way % 7) as usize]);
     v.label_if(state_change && forced, "state_change_and_forced_draw");
-    v.label_if(c.way % 6 == 3 && c.pre.iter().any(|o| matches!(o, BOp::Finish | BOp::Abandon | BOp::FinishWithMessage(_))), "finished_before_removal");
+    v.label_if(c.way % 7 == 3 && c.pre.iter().any(|o| matches!(o, BOp::Finish | BOp::Abandon | BOp::FinishWithMessage(_))), "finished_before_removal");
     Ok(v)
 }
 
@@ -273,7 +305,7 @@ fn case_strategy(tier: Tier) -> BoxedStrategy<HiddenCase> {
     let tab_msg = prop_oneof![Just(BOp::SetMessage("a\tb".into())), Just(BOp::SetPrefix("\tp".into())), (0u8..12).prop_map(BOp::SetTabWidth)];
     let op = prop_oneof![8 => c01::bop_strategy(20), 2 => tab_msg];
     let big = prop_oneof![2 => Just(vec![]), 1 => proptest::collection::vec((0u8..6, super::c07::special_u64()), 1..5)];
-    (0u8..6, proptest::option::weighted(0.8, 0u64..100), proptest::collection::vec(op.clone(), 0..6), proptest::collection::vec(op, 0..n), proptest::option::weighted(0.4, (0u8..6, 0u8..8, 0u8..5)), proptest::bool::weighted(0.3), big)
+    (0u8..7, proptest::option::weighted(0.8, 0u64..100), proptest::collection::vec(op.clone(), 0..6), proptest::collection::vec(op, 0..n), proptest::option::weighted(0.4, (0u8..6, 0u8..8, 0u8..6)), proptest::bool::weighted(0.3), big)
         .prop_map(|(way, len, pre, ops, adaptor, burn, big)| HiddenCase { way, len, pre, ops, adaptor, burn, big })
         .boxed()
 }
@@ -290,12 +322,12 @@ pub fn property() -> Property {
         ],
         parts: vec![Box::new(Gen::<HiddenCase> {
             name: "twins",
-            rule: "the C01 op alphabet (plus texts with tabs and set_tab_width) applied to a visible bar and to a twin hidden in one of six ways (hidden target, Term over a non-tty fd, member of a hidden MultiProgress, member of a visible MultiProgress removed after 0-5 ops incl. finishing, member of a visible MultiProgress moved into a hidden one, removed from a hidden MultiProgress that then gets the terminal), optionally followed by an adaptor driven to its end and by length/position calls with arguments from the whole u64 range; the hidden twin must make no terminal call / write no byte and all getters must agree after every op; non-trivial = a state change and a forced-draw op occurred",
+            rule: "the C01 op alphabet (plus texts with tabs and set_tab_width) applied to a visible bar and to a twin hidden in one of seven ways (ProgressBar::hidden(), hidden target, Term over a non-tty fd, member of a hidden MultiProgress with siblings that come and go, member of a visible MultiProgress removed after 0-5 ops incl. finishing, member of a visible MultiProgress moved into a hidden one, removed from a hidden MultiProgress that then gets the terminal), optionally followed by an adaptor driven to its end and by length/position calls with arguments from the whole u64 range; the hidden twin must make no terminal call / write no byte and all getters must agree after every op; non-trivial = a state change and a forced-draw op occurred",
             strategy: case_strategy,
             cases: |t| t.pick(20_000, 800_000),
             run: run_hidden,
             signature: no_signature,
-            essential: &["way_hidden_target", "way_not_a_tty", "way_hidden_multi", "way_removed_from_multi", "way_moved_from_visible_to_hidden_multi", "way_removed_from_hidden_multi_that_becomes_visible", "arguments_over_the_whole_u64_range", "state_change_and_forced_draw", "finished_before_removal", "adaptor_driven_to_its_end", "limiter_burst_used_up_first"],
+            essential: &["way_hidden_target", "way_not_a_tty", "way_hidden_multi", "way_removed_from_multi", "way_moved_from_visible_to_hidden_multi", "way_removed_from_hidden_multi_that_becomes_visible", "way_hidden_constructor", "arguments_over_the_whole_u64_range", "state_change_and_forced_draw", "finished_before_removal", "adaptor_driven_to_its_end", "limiter_burst_used_up_first"],
             workers: w,
             decode: None,
         })],
